@@ -6,6 +6,7 @@ import (
 	"fmt"
 	"io"
 	"strings"
+	"slices"
 	"testing"
 
 	"github.com/c2FmZQ/ech"
@@ -319,6 +320,34 @@ func TestC09(t *testing.T) {
 			perm := rapid.Permutation(list).Draw(t, "perm")
 			check(perm, "permuted order")
 			cl = append(cl, "permuted")
+		}
+		// every key the server holds serves its own clients, also after connections that were
+		// accepted under another key of the same key material (same Option values, same slices)
+		if present && len(others) > 0 && len(others) <= 6 && rapid.IntRange(0, 2).Draw(t, "then_a_client_of_another_key") == 0 {
+			K := others[uniform(t, "other_target", len(others))]
+			tpK := hello.GenTuple(t, hello.TupleOpts{PublicName: K.PublicName})
+			if in, out := tpK.Sizes(); in <= 16000 && out <= 16000 {
+				slK, err := hello.NewSealer(K.Config, K.Priv.PublicKey().Bytes(), K.Suites[0], K.ID)
+				if err != nil {
+					t.Fatalf("harness: %v", err)
+				}
+				mK, err := slK.SealOuter(tpK.Outer, hello.Encode(hello.Compress(tpK.Inner, tpK.RunStart, tpK.RunLen), make([]byte, tpK.Pad)), true)
+				if err != nil {
+					t.Fatalf("harness: %v", err)
+				}
+				recK := hello.Record(22, 0x0303, mK)
+				var opts []ech.Option
+				o1 := driveOnce(list, stream, hrr, &opts)
+				o2 := driveOnce(list, recK, nil, &opts)
+				o3 := driveOnce(list, stream, hrr, &opts)
+				if !o2.Accepted || o2.Err1 != "" {
+					ev.Violation(t, "C09", map[string]any{"keys": keysReplay(list), "first_client_stream": hx(stream), "client_stream": hx(recK), "others": shape}, "after a connection accepted under the target key (%s), a hello encrypted to another held key (position %d of the others) is not accepted: %s", o1, slices.Index(others, K), o2)
+				}
+				if !sameOutcome(o1, o3) {
+					ev.Violation(t, "C09", map[string]any{"keys": keysReplay(list), "client_stream": hx(stream), "others": shape}, "the target's client fares differently after a client of another key was served: %s, before %s", o3, o1)
+				}
+				cl = append(cl, "client_of_another_held_key")
+			}
 		}
 		rec.Case(fmt.Sprintf("%v|%d|%v|%v", shape, pos, withRetry, present), sameIDOther, cl, func() any {
 			return map[string]any{"others": shape, "target_pos": pos, "target_present": present, "retry": withRetry}
